@@ -589,5 +589,29 @@ def generic_replay(harness, path):
 
 
 def regen_all(harness):
-    """Regenerate every coq/gen/*.v from /repo (source text and built crate)."""
+    """Regenerate every coq/gen/*.v from /repo (source text and built crate): the shared built-in
+    table plus every `regen_*` function that a check module (checks/cNN.py) defines — a full .vo
+    build needs all generated tables, whichever property is being checked."""
+    import glob
+    import importlib
+    import inspect
     regen_builtins(harness)
+    here = os.path.dirname(os.path.abspath(__file__))
+    for path in sorted(glob.glob(os.path.join(here, "c[0-9][0-9].py"))):
+        name = os.path.basename(path)[:-3]
+        try:
+            mod = importlib.import_module(name)
+        except Exception as e:          # a broken check module must not take the others down
+            log("regen_all: cannot import %s: %s" % (name, e))
+            continue
+        for attr in sorted(dir(mod)):
+            fn = getattr(mod, attr)
+            if attr.startswith("regen_") and callable(fn) and getattr(fn, "__module__", None) == mod.__name__:
+                try:
+                    nparams = len([p_ for p_ in inspect.signature(fn).parameters.values()
+                                   if p_.default is inspect.Parameter.empty])
+                    fn(harness) if nparams >= 1 else fn()
+                except BrokenTie:
+                    raise
+                except Exception as e:
+                    raise BrokenTie("generated table %s.%s could not be rebuilt from /repo" % (name, attr), repr(e))
